@@ -142,6 +142,9 @@ def run_seeded(c):
             A0 = (rng.rand(n, n) < 0.4).astype(int)
             A0 = np.triu(A0, 1)
             A0 = A0 + A0.T
+            if c["rseed"] % 2:              # every second graph: the highest-numbered node is isolated
+                A0[-1, :] = 0
+                A0[:, -1] = 0
             rec["A0"] = enc.ints(A0)
             if k == "randomly_rewire":
                 net = Network(A0.copy(), silence_level=3)
